@@ -431,7 +431,7 @@ def abbrev_rule(R, lib, zs):
         R.violation('R7', c, pf.loc, 'both sides use the table %r; zic names a transition with any non-zero SAVE by the second half: expected %r' % (ptab, want))
 
 
-def pool_rules(R, lib, zs):
+def pool_rules(R, lib, zs, full=False):
     """The candidate pool of the C++ TransitionStorage and the Python list of candidates are filled by sibling insertion
     routines (addFreeAgentToCandidatePool / _add_transition_sorted) and the C++ pool is compacted in place by
     addActiveCandidatesToActivePool.  Their IR is interpreted (E-SEQ) on every abstract pool of a small family: transition
@@ -549,6 +549,21 @@ def pool_rules(R, lib, zs):
         R.violation('R9', 'addActiveCandidatesToActivePool', loc_k, '%d active transitions%s, candidates with active flags %s: the pool becomes %s with indexes %s; expected the '
                     'active candidates in their order directly behind the active section, the three indexes behind them and no object lost or duplicated'
                     % (front, ' + a prior slot' if prior_slot else '', list(flags), got, idx))
+    if full:
+        # pools with no free slot left (asked for by C09: the capacity of the array): the insertion must not touch
+        # mTransitions[SIZE]; the compaction of a full candidate section must stay inside the array as well
+        for front in (0, 1, 2):
+            for prior_slot in (False, True):
+                length = size - front - (1 if prior_slot else 0)
+                for what, fn_ in (('insert', ins), ('compact', comp)):
+                    for flags in (itertools.product((False, True), repeat=length) if what == 'compact' else [tuple([False] * length)]):
+                        pool, before = mk_pool(front, [(j % 3, f_) for j, f_ in enumerate(flags)], None, prior_slot)
+                        try:
+                            AEval(module=cmod, intrinsics=cops).call_function(fn_, [], recv=pool)
+                        except IndexError:
+                            R.violation('R9', fn_.split('::')[-1] + ':full-pool', cmod.funcs[fn_].loc, 'on a pool whose %d slots are all taken (%d active%s, %d candidates) the '
+                                        'operation touches a slot outside the array' % (size, front, ', a prior' if prior_slot else '', length))
+                            break
     R.note('pool operations: %d insertions, %d compactions interpreted' % (n, m))
 
 
